@@ -731,6 +731,25 @@ def getitem_polytope_classes(ctx):
             pc2 = PolygonCollection(np.stack([poly(n, s, dim) for s in shifts]).reshape(2, 2, n, dim + 1))
             row = pc2[1]
             ctx.ensure("two-collection-axes:row-stays-a-collection", isinstance(row, PolygonCollection) and row.shape == (2, n, dim + 1) and isinstance(pc2[1, 0], single_cls), witness=dict(w, got=type(row).__name__))
+    # a 3D collection answers like its single polygons also AFTER its areas / centroids were read (call sequence; supporting planes off the origin)
+    for n in (4, 5):
+        shifts3 = [(2, 1), (7, 3), (-4, 6)]
+        pc = PolygonCollection(np.stack([poly(n, s, 3) for s in shifts3]))
+        singles = [Polygon(poly(n, s, 3)) for s in shifts3]
+        inner = g.PointCollection(np.array([[s[0] + 0.5, s[1] + 0.5, 0.5 * s[0], 1.0] for s in shifts3]))
+        lines = g.LineCollection([g.Line(g.Point(s[0] + 0.5, s[1] + 0.5, 0.5 * s[0] - 1), g.Point(s[0] + 0.5, s[1] + 0.5, 0.5 * s[0] + 2)).array for s in shifts3])
+        w = dict(vertices=n)
+        try:
+            area_first = np.asarray(pc.area)
+            got = np.asarray(pc.contains(inner)).tolist()
+            want = [bool(P.contains(g.Point(s[0] + 0.5, s[1] + 0.5, 0.5 * s[0]))) for P, s in zip(singles, shifts3)]
+            npts = sum(np.asarray(x.array).size // 4 for x in pc.intersect(lines))
+            ok = got == want == [True] * 3 and npts == 3 and np.allclose(area_first, [float(P.area) for P in singles]) and np.allclose(np.asarray(pc.area), area_first)
+            w.update(got=got, want=want, points=npts)
+        except Exception as e:
+            ok = False
+            w["exception"] = "%s: %s" % (type(e).__name__, str(e)[:100])
+        ctx.ensure("3d-collection:contains/intersect-after-area==single-polygons", ok, witness=w)
     sc = SegmentCollection(np.array([[[0, 0, 1], [1, 1, 1]], [[1, 0, 1], [0, 1, 1]], [[2, 2, 1], [3, 5, 1]]], dtype=float))
     ctx.ensure("segments:classes", isinstance(sc[0], Segment) and isinstance(sc[0:2], SegmentCollection) and isinstance(sc[[0, 2]], SegmentCollection) and all(isinstance(x, Segment) for x in sc)
                and sc[0:2].shape == (2, 2, 3), witness=dict(got=[type(sc[0]).__name__, type(sc[0:2]).__name__]))
